@@ -4,5 +4,7 @@ CONSTANTS
   FormulaShadows = FALSE
   DipoleUnchecked = FALSE
   BuiltinClashCrashes = FALSE
+  LateBuiltinShadowed = FALSE
+  AddRawKey = FALSE
 INVARIANT NoDuplicateSurvives
 INVARIANT Terminates
